@@ -18,11 +18,11 @@ for f in sys.argv[1:]:
 
 out = []
 for m, r in sorted(rows.items()):
-    mm = re.search(r"wt-(C\d+)(b?)/MUTANTS/m(\d)", m)
+    mm = re.search(r"wt-(C\d+)([bc]?)/MUTANTS/m(\d)", m)
     if not mm:
         continue
     pid, wave, k = mm.group(1), mm.group(2), mm.group(3)
-    name = f"{pid}-{'w2' if wave else 'w1'}m{k}"
+    name = f"{pid}-{ {'': 'w1', 'b': 'w2', 'c': 'w3'}[wave] }m{k}"
     valid = bool(r.get("suite_passes_with") and r.get("demo_fails_with") and r.get("demo_passes_without"))
     if not valid:
         print("skip (not confirmed):", name, r.get("suite_passes_with"), r.get("demo_fails_with"), r.get("demo_passes_without"), r.get("error"))
